@@ -248,7 +248,7 @@ PROPS['C11'] = {
               'repo\'s own encodings); the TLV containers of BGP-LS NLRI, the BGP-LS attribute and Prefix-SID are covered by the parametric '
               'model Model/Tlv.lean (work bounds for every body decoder; loop inventory regenerated from the AST on every run by '
               'gen_loops.py and proved equal to the covered list); the ~60 straight-line TLV bodies, the MP/EVPN/flowspec/extcommunity '
-              'loops (modelled under C07/C17, termination by construction there) and the tunnel-encapsulation decoder have no C11 theorem of their own; '
+              'loops (modelled under C07/C17, termination by construction there) have no C11 theorem of their own (the tunnel-encapsulation attribute has no decoder in yabgp: type 23 is kept as hexadecimal text by the default branch, which the UPDATE model covers); '
               'the PMSI tunnel decoder is modelled (Model/Pmsi.lean, compared with PMSITunnel.parse by the decoders suite) and C11_pmsi_raises_iff '
               'gives the exact set of values on which it raises (all caught by Update.parse_attributes), C11_pmsi_roundtrip relates it to the '
               'constructor model of C08 (what PMSITunnel.construct writes is decoded back, for labels that fit and addresses whose family survives); '
